@@ -87,7 +87,7 @@ func nlistlist(ls [][]uint64) string {
 func init() {
 	props["C12"] = &propDef{
 		header:    "From BE Require Import Corr.CheckC12.",
-		rule:      "random sorted lists with duplicates (length 0..300, so every gallop/bisect boundary is hit) x target sequences (monotone and not, at/around members, beyond the end, the sentinel); groups of 1..5 lists; cursor sets of 0..8 for Sort; thorough adds every sorted list over {1..5} of length <= 6 x every pair of targets 0..6. Non-trivial = the list(s) are non-empty and at least one call actually moves a cursor; distinct = distinct input",
+		rule:      "random sorted lists with duplicates (length 0..300, so every gallop/bisect boundary is hit) x target sequences (monotone and not, at/around members, beyond the end, the sentinel); groups of 1..5 lists; cursor sets of 0..48 for Sort (plus arrangements of 9..64 cursors: small heads at every position among equal ones, reversed, rotated, exhausted in front); thorough adds every sorted list over {1..5} of length <= 6 x every pair of targets 0..6. Non-trivial = the list(s) are non-empty and at least one call actually moves a cursor; distinct = distinct input",
 		shardSize: 500,
 		gen: func(tier string, r *Rand, add func(in interface{})) {
 			// corpus: the list of the unit test and boundary shapes
@@ -121,6 +121,9 @@ func init() {
 					add(c12In{K: "fc", Lists: ls, Ts: targets(r, all, 1+r.Intn(20), span)})
 				case 2:
 					g := r.Intn(9)
+					if r.Bool() {
+						g = 9 + r.Intn(40)
+					}
 					var ls [][]uint64
 					var ts []uint64
 					for i := 0; i < g; i++ {
@@ -130,6 +133,43 @@ func init() {
 					}
 					add(c12In{K: "sort", Lists: ls, Ts: ts})
 				}
+			}
+			// Sort over larger cursor sets: every position of one or two small heads among equal ones, reversed,
+			// rotated, exhausted cursors in front (heads are list heads; target 0 leaves them in place)
+			for _, n := range []int{9, 10, 12, 16, 17, 33, 64} {
+				mk := func(heads []uint64) {
+					var ls [][]uint64
+					var ts []uint64
+					for _, h := range heads {
+						if h == 0 {
+							ls = append(ls, []uint64{})
+						} else {
+							ls = append(ls, []uint64{h, h + 100})
+						}
+						ts = append(ts, 0)
+					}
+					add(c12In{K: "sort", Lists: ls, Ts: ts})
+				}
+				for pos := 0; pos < n; pos += 1 + n/12 {
+					h := make([]uint64, n)
+					for i := range h {
+						h[i] = 5
+					}
+					h[pos] = 1
+					h[(pos+6+n/3)%n] = 2
+					mk(h)
+					h2 := append([]uint64{}, h...)
+					h2[0] = 0 // an exhausted cursor in front
+					mk(h2)
+				}
+				rev := make([]uint64, n)
+				rot := make([]uint64, n)
+				for i := range rev {
+					rev[i] = uint64(n - i)
+					rot[i] = uint64((i+7)%n + 1)
+				}
+				mk(rev)
+				mk(rot)
 			}
 			if tier == "thorough" { // exhaustive small scope
 				var rec func(prefix []uint64, min uint64)
